@@ -361,6 +361,36 @@ def h_with_context(eng):
 MIN_DISCHARGED = {"H17.wraps": 1500, "H17.check": 60, "H17.arity": 10}
 
 
+def h_exact_types(eng):
+    """in a Fraction registry the converted arguments, the returned quantities and whatever a
+    later conversion of the same pair reads from the memo are exact rationals"""
+    from fractions import Fraction as F
+
+    pairs = [("foot", "yard", F(1, 3)), ("inch", "foot", F(1, 12)), ("yard", "mile", F(1, 1760)), ("minute", "hour", F(1, 60)), ("ounce", "pound", F(1, 16))]
+    for src, dst, k in pairs:
+        for first in ("wraps", "to"):
+            ureg = regs.fraction_default()
+            if first == "to":
+                ureg.Quantity(F(1), src).to(dst)
+
+            @ureg.wraps(None, (dst,), strict=False)
+            def f(a):
+                return a
+
+            @ureg.wraps(dst + "**2", (dst, "=A", "=A**2"), strict=False)
+            def g(a, b, c):
+                return a * a + c * 0
+
+            got = f(ureg.Quantity(F(7), src))
+            eng.prove(isinstance(got, F) and got == 7 * k, f"fraction:{src}->{dst}:{first}-first:argument-exact")
+            r = g(ureg.Quantity(F(7), src), ureg.Quantity(F(2), src), ureg.Quantity(F(3), dst + "**2"))
+            eng.prove(isinstance(r.magnitude, F) and r.magnitude == 49 * k * k, f"fraction:{src}->{dst}:{first}-first:result-exact")
+            t = ureg.Quantity(F(5), src).to(dst).magnitude
+            eng.prove(isinstance(t, F) and t == 5 * k, f"fraction:{src}->{dst}:{first}-first:later-conversion-exact")
+            t = ureg.Quantity(F(5), src + "**2").to(dst + "**2").magnitude
+            eng.prove(isinstance(t, F) and t == 5 * k * k, f"fraction:{src}->{dst}:{first}-first:later-conversion-squared-exact")
+
+
 def _structs(tier, seed):
     big = tier == "thorough"
     rnd = random.Random(f"c17:{seed}")
@@ -418,4 +448,5 @@ def cases(tier, seed):
         for form in ("positional", "keyword", "default", "kw-reversed", "kw-mixed", "kw-skip"):
             out.append(Case("H17.check", f"{dims}:{units}:{form}", M, "h_check", {"dims": dims, "units": units, "form": form}, validate=1))
     out.append(Case("H17.check", "with_context", M, "h_with_context", {}, validate=1))
+    out.append(Case("H17.wraps", "fraction-registry-exact", M, "h_exact_types", {}, kind="conc"))
     return out
